@@ -233,6 +233,10 @@ def x1_wire_shape(prog):
             r.viol('X1', label + '/container-length', d.loc(), 'declared length differs: writer %s, reader %s' % (wc[3], dc[3]))
         # elements: writer's element events vs the visitor's visit_seq events
         vis = visitor_in(prog, d, 'visit_seq')
+        if vis is None and dc[4]:
+            # the visitor type handed to the container call, wherever it is defined (nested item or module level)
+            cands = [f for f in prog.fns.values() if f.name == 'visit_seq' and f.impl and f.impl['trait'] and f.impl['trait']['path'] == 'serde::de::Visitor' and ty_str(f.impl['self']).split('<')[0] == dc[4]]
+            vis = cands[0] if len(cands) == 1 else None
         if vis is None:
             r.viol('X1', label + '/visitor-missing', d.loc(), 'visitor %s::visit_seq not found' % dc[4])
             continue
